@@ -208,6 +208,38 @@ def gen_random(ctx, algos, count):
     return cases, beyond
 
 
+def gen_large_mixed(ctx, count):
+    """codecs 1/2, large code, errors AND erasures exactly at the bound (the region of the open finding)"""
+    rng = ctx.rng
+    cases = []
+    for algo in (1, 2):
+        n, sk = 172, 20
+        c = R.codec(algo, n, sk)
+        for _ in range(count):
+            L = rng.choice([8, 20])
+            m0 = bytes(rng.randrange(256) for _ in range(L))
+            p0 = bytes(c.encode(m0)); w = m0 + p0
+            er = 255
+            f0 = sum(1 for x in w if x == er)
+            budget = n - sk - f0
+            if budget < 2:
+                continue
+            nerr = rng.randrange(1, budget // 2 + 1); nera = budget - 2 * nerr
+            free = [i for i in range(len(w)) if w[i] != er]
+            pos = rng.sample(free, nerr + nera)
+            r = bytearray(w)
+            for p in pos[:nerr]:
+                v = rng.randrange(256)
+                while v == w[p] or v == er:
+                    v = rng.randrange(256)
+                r[p] = v
+            for p in pos[nerr:]:
+                r[p] = er
+            r = bytes(r)
+            cases.append((algo, n, sk, 0, m0, r[:L], r[L:], er, 'large-mixed'))
+    return cases
+
+
 def run(ctx):
     corpus = [(1, 20, 11, 0, bytes(11), b'\x00\x00\x00\x07' + bytes(7), bytes(9), None, 'corpus:zero-codeword-codec1'),
               (2, 20, 11, 0, bytes(11), b'\x00\x00\x00\x07' + bytes(7), bytes(9), None, 'corpus:zero-codeword-codec2'),
@@ -223,6 +255,7 @@ def run(ctx):
         rc, beyond = gen_random(ctx, algos, cnt)
         run_cases(ctx, rc)
         run_cases(ctx, beyond, claim=False)
+    run_cases(ctx, gen_large_mixed(ctx, 12 if q else 150))
 
 
 def replay_case(ctx, case):
@@ -240,8 +273,33 @@ def replay_case(ctx, case):
     holds = ans == [m0.hex(), p0.hex()] and len(p0) == n - (k or sk)
     if outs[1] != '1':
         holds = True   # not within capacity: the property makes no claim
-    return {'holds': holds, 'implementation': ans, 'property_expects': [m0.hex(), p0.hex()], 'model_parity': outs[0],
+    return {'holds': holds, 'implementation': ans, 'decode_returned': ans, 'property_expects': [m0.hex(), p0.hex()], 'model_parity': outs[0],
             'model_within_capacity': outs[1] == '1'}
+
+
+def classify(case, detail):
+    """open finding C02-codec12-mixed-errata-incomplete (third-party decoder): codec 1/2, erasures on, the received word
+    carries both erasure symbols and wrong non-erasure symbols, and the decoder refused with the Chien-search error."""
+    try:
+        if case.get('algo') not in (1, 2) or case.get('er') is None or not isinstance(detail, dict):
+            return None
+        ret = detail.get('decode_returned') or detail.get('implementation')
+        if not ret or ret[0] != 'EXC' or 'Chien Search' not in str(ret[1]):
+            return None
+        er = case['er']
+        m0, m, e = bytes.fromhex(case['m0']), bytes.fromhex(case['m']), bytes.fromhex(case['e'])
+        r = m + e
+        nera = sum(1 for x in r if x == er)
+        # wrong non-erasure symbols in the message part are visible without the parity; in the parity part any symbol
+        # that is neither the erasure symbol nor accounted for is only known through the original parity: recompute it
+        from props import rs_common as R2
+        p0 = bytes(R2.codec(case['algo'], case['n'], case['selfk']).encode(m0, k=case['k'] or None))
+        nerr = sum(1 for x, y in zip(r, m0 + p0) if x != y and x != er)
+        if nera >= 1 and nerr >= 1:
+            return 'C02-codec12-mixed-errata-incomplete'
+    except Exception:
+        return None
+    return None
 
 
 def shrink(ctx, case):
